@@ -1,94 +1,163 @@
-(* C12 -- non-negativity of the rectangle mass, from the copula-level properties that C11 proves. *)
+(* C12 -- non-negativity of the rectangle mass, from the copula-level properties that C11 proves.
+   Marginal tail integrals are EXTENDED numbers (V i 0 = +inf for an infinite-activity margin). *)
 From Coq Require Import List Arith Bool Reals Lra Lia.
-From RV Require Import Base.RB Base.ExtNum Model.Copula Gen.GenC12Mass Model.MassNd Proofs.C12_Mass.
+From RV Require Import Base.RB Base.ExtNum Model.Copula Gen.GenC12Mass Model.MassNd Proofs.C12_Mass Proofs.C12_Family.
 Import ListNotations.
 Open Scope R_scope.
 
-Definition tails_ok (U1 : nat -> ext R -> R) : Prop :=
-  (forall i, U1 i PInf = 0 /\ U1 i NInf = 0) /\
-  (forall i x y, @xleb RNum x y = true -> (@xlt0 RNum y = true \/ @xlt0 RNum x = false) -> U1 i y <= U1 i x).
+Definition tails_ok (V : nat -> ext R -> ext R) : Prop :=
+  tails_inf V /\
+  (forall i x y, @xleb RNum x y = true -> (@xlt0 RNum y = true \/ @xlt0 RNum x = false) -> @xleb RNum (V i y) (V i x) = true).
+(* a coordinate interval that does not straddle 0 and whose tail integrals are finite at both ends *)
+Definition fin_side (V : nat -> ext R -> ext R) (k : nat) (a b : ext R) : bool :=
+  negb (straddles RNum a b) && is_fin RNum (V k a) && is_fin RNum (V k b).
 
 Lemma xleb_ninf (x : ext R) : @xleb RNum NInf x = true. Proof. destruct x; reflexivity. Qed.
 Lemma xleb_pinf (x : ext R) : @xleb RNum x PInf = true. Proof. destruct x; reflexivity. Qed.
 Lemma xleb_fin (x y : R) : x <= y -> @xleb RNum (Fin x) (Fin y) = true. Proof. intros; simpl; apply Rleb_true; assumption. Qed.
-
 Lemma nostraddle_side (a b : ext R) : straddles RNum a b = false -> @xlt0 RNum b = true \/ @xlt0 RNum a = false.
 Proof. unfold straddles. rewrite ge0_neg. destruct (@xlt0 RNum a), (@xlt0 RNum b); simpl; intros; try discriminate; auto. Qed.
+Lemma is_fin_ex (x : ext R) : is_fin RNum x = true -> exists v, x = Fin v.
+Proof. destruct x; try discriminate. eauto. Qed.
+Lemma fs2_l u1 u2 v1 v2 : finite_side u1 u2 = true -> (finite_side u1 u2 || finite_side v1 v2)%bool = true.
+Proof. intros ->. reflexivity. Qed.
+Lemma fs2_r u1 u2 v1 v2 : finite_side v1 v2 = true -> (finite_side u1 u2 || finite_side v1 v2)%bool = true.
+Proof. intros ->. apply orb_true_r. Qed.
+Lemma fs3_1 u1 u2 v1 v2 w1 w2 : finite_side u1 u2 = true -> (finite_side u1 u2 || finite_side v1 v2 || finite_side w1 w2)%bool = true.
+Proof. intros ->. reflexivity. Qed.
+Lemma fs3_2 u1 u2 v1 v2 w1 w2 : finite_side v1 v2 = true -> (finite_side u1 u2 || finite_side v1 v2 || finite_side w1 w2)%bool = true.
+Proof. intros ->. rewrite orb_true_r. reflexivity. Qed.
+Lemma fs3_3 u1 u2 v1 v2 w1 w2 : finite_side w1 w2 = true -> (finite_side u1 u2 || finite_side v1 v2 || finite_side w1 w2)%bool = true.
+Proof. intros ->. apply orb_true_r. Qed.
 
-Theorem nonneg_2d (U1 : nat -> ext R -> R) (cop : list (ext R) -> R) :
-  tails_ok U1 -> copula2_ok cop ->
-  forall a1 a2 b1 b2, @xleb RNum a1 b1 = true -> @xleb RNum a2 b2 = true ->
-  (straddles RNum a1 b1 && straddles RNum a2 b2)%bool = false ->
-  0 <= fast_2d RNum U1 (margin_tail_integral RNum U1 cop 2) [a1; a2] [b1; b2] None.
-Proof.
-  intros [Tinf Tmono] [Cg [Cinc Cm]] a1 a2 b1 b2 H1 H2 Hs.
-  unfold fast_2d, mass_2d, mass_1d. cbn [is_some is_none olen Nat.eqb andb length].
-  fold (straddles RNum a1 b1). fold (straddles RNum a2 b2).
-  destruct (straddles RNum a1 b1) eqn:S1; destruct (straddles RNum a2 b2) eqn:S2; try discriminate; cbn.
-  - (* coordinate 1 straddles *)
-    pose proof (Tmono 1%nat a2 b2 H2 (nostraddle_side _ _ S2)) as M2.
-    destruct (Cm (U1 1%nat a2)) as [_ Ma]. destruct (Cm (U1 1%nat b2)) as [_ Mb]. cbn in Ma, Mb.
-    pose proof (Cinc (Fin (U1 0%nat b1)) PInf (Fin (U1 1%nat b2)) (Fin (U1 1%nat a2)) (xleb_pinf _) (xleb_fin _ _ M2) eq_refl).
-    pose proof (Cinc NInf (Fin (U1 0%nat a1)) (Fin (U1 1%nat b2)) (Fin (U1 1%nat a2)) (xleb_ninf _) (xleb_fin _ _ M2) eq_refl).
-    cbn in *; lra.
-  - pose proof (Tmono 0%nat a1 b1 H1 (nostraddle_side _ _ S1)) as M1.
-    destruct (Cm (U1 0%nat a1)) as [Ma _]. destruct (Cm (U1 0%nat b1)) as [Mb _]. cbn in Ma, Mb.
-    pose proof (Cinc (Fin (U1 0%nat b1)) (Fin (U1 0%nat a1)) (Fin (U1 1%nat b2)) PInf (xleb_fin _ _ M1) (xleb_pinf _) eq_refl).
-    pose proof (Cinc (Fin (U1 0%nat b1)) (Fin (U1 0%nat a1)) NInf (Fin (U1 1%nat a2)) (xleb_fin _ _ M1) (xleb_ninf _) eq_refl).
-    cbn in *; lra.
-  - pose proof (Tmono 0%nat a1 b1 H1 (nostraddle_side _ _ S1)) as M1.
-    pose proof (Tmono 1%nat a2 b2 H2 (nostraddle_side _ _ S2)) as M2.
-    pose proof (Cinc _ _ _ _ (xleb_fin _ _ M1) (xleb_fin _ _ M2) eq_refl). cbn in *; lra.
-Qed.
+Section Nonneg.
+  Variable V : nat -> ext R -> ext R.
+  Variable cop : list (ext R) -> R.
+  Hypothesis Tok : tails_ok V.
 
-Theorem nonneg_3d (U1 : nat -> ext R -> R) (cop : list (ext R) -> R) :
-  tails_ok U1 -> copula3_ok cop ->
-  forall a1 a2 a3 b1 b2 b3, @xleb RNum a1 b1 = true -> @xleb RNum a2 b2 = true -> @xleb RNum a3 b3 = true ->
-  (straddles RNum a1 b1 && straddles RNum a2 b2 && straddles RNum a3 b3)%bool = false ->
-  0 <= fast_3d RNum U1 (margin_tail_integral RNum U1 cop 3) [a1; a2; a3] [b1; b2; b3] None.
+  Lemma side_order k a b : @xleb RNum a b = true -> straddles RNum a b = false -> @xleb RNum (V k b) (V k a) = true.
+  Proof. intros H S. destruct Tok as [_ Tm]. apply Tm; auto. apply nostraddle_side; assumption. Qed.
+
+  Theorem nonneg_2d : copula2_ok cop ->
+    forall a1 a2 b1 b2, @xleb RNum a1 b1 = true -> @xleb RNum a2 b2 = true ->
+    (fin_side V 0 a1 b1 || fin_side V 1 a2 b2)%bool = true ->
+    0 <= fast_2d RNum (tail_val RNum V) (margin_tail_integral RNum V cop 2) [a1; a2] [b1; b2] None.
+  Proof.
+    intros [Cg [Cinc Cm]] a1 a2 b1 b2 H1 H2 Hf.
+    unfold fast_2d, mass_2d, mass_1d. cbn [is_some is_none olen Nat.eqb andb length].
+    fold (straddles RNum a1 b1). fold (straddles RNum a2 b2). unfold fin_side in Hf.
+    destruct (straddles RNum a1 b1) eqn:S1; destruct (straddles RNum a2 b2) eqn:S2; cbn [negb andb orb] in Hf; rewrite ?orb_false_r in Hf; try discriminate; cbn.
+    - (* coordinate 1 straddles; coordinate 2 is the finite side *)
+      apply andb_prop in Hf. destruct Hf as [Fa Fb]. apply is_fin_ex in Fa, Fb. destruct Fa as [A2 EA]. destruct Fb as [B2 EB].
+      pose proof (side_order 1%nat a2 b2 H2 S2) as M2. unfold tail_val. rewrite EA, EB in *. cbn [fin_val].
+      destruct (Cm A2) as [_ Ma]. destruct (Cm B2) as [_ Mb]. cbn in Ma, Mb.
+      pose proof (Cinc (V 0%nat b1) PInf (Fin B2) (Fin A2) (xleb_pinf _) M2 ltac:(apply fs2_r; reflexivity)).
+      pose proof (Cinc NInf (V 0%nat a1) (Fin B2) (Fin A2) (xleb_ninf _) M2 ltac:(apply fs2_r; reflexivity)).
+      cbn in *; lra.
+    - apply andb_prop in Hf. destruct Hf as [Fa Fb]. apply is_fin_ex in Fa, Fb. destruct Fa as [A1 EA]. destruct Fb as [B1 EB].
+      pose proof (side_order 0%nat a1 b1 H1 S1) as M1. unfold tail_val. rewrite EA, EB in *. cbn [fin_val].
+      destruct (Cm A1) as [Ma _]. destruct (Cm B1) as [Mb _]. cbn in Ma, Mb.
+      pose proof (Cinc (Fin B1) (Fin A1) (V 1%nat b2) PInf M1 (xleb_pinf _) ltac:(apply fs2_l; reflexivity)).
+      pose proof (Cinc (Fin B1) (Fin A1) NInf (V 1%nat a2) M1 (xleb_ninf _) ltac:(apply fs2_l; reflexivity)).
+      cbn in *; lra.
+    - pose proof (side_order 0%nat a1 b1 H1 S1) as M1. pose proof (side_order 1%nat a2 b2 H2 S2) as M2.
+      assert (Hfs : (finite_side (V 0%nat b1) (V 0%nat a1) || finite_side (V 1%nat b2) (V 1%nat a2))%bool = true).
+      { unfold finite_side. destruct (is_fin RNum (V 0%nat a1)), (is_fin RNum (V 0%nat b1)), (is_fin RNum (V 1%nat a2)), (is_fin RNum (V 1%nat b2));
+          cbn in *; try discriminate; reflexivity. }
+      pose proof (Cinc _ _ _ _ M1 M2 Hfs). cbn in *; lra.
+  Qed.
+
+  Theorem nonneg_3d : copula3_ok cop ->
+    forall a1 a2 a3 b1 b2 b3, @xleb RNum a1 b1 = true -> @xleb RNum a2 b2 = true -> @xleb RNum a3 b3 = true ->
+    (fin_side V 0 a1 b1 || fin_side V 1 a2 b2 || fin_side V 2 a3 b3)%bool = true ->
+    0 <= fast_3d RNum (tail_val RNum V) (margin_tail_integral RNum V cop 3) [a1; a2; a3] [b1; b2; b3] None.
+  Proof.
+    intros [Cg [Cinc Cm]] a1 a2 a3 b1 b2 b3 H1 H2 H3 Hf.
+    unfold fast_3d, mass_3d, mass_2d, mass_1d. cbn [is_some is_none olen Nat.eqb Nat.ltb Nat.leb andb length].
+    fold (straddles RNum a1 b1). fold (straddles RNum a2 b2). fold (straddles RNum a3 b3). unfold fin_side in Hf.
+    apply orb_true_iff in Hf. destruct Hf as [Hf|Hf]; [apply orb_true_iff in Hf; destruct Hf as [Hf|Hf]|].
+    - (* coordinate 1 is the finite side *)
+      apply andb_prop in Hf. destruct Hf as [Hf Fb]. apply andb_prop in Hf. destruct Hf as [Sn Fa]. apply negb_true_iff in Sn.
+      apply is_fin_ex in Fa, Fb. destruct Fa as [A EA]. destruct Fb as [B EB].
+      pose proof (side_order 0%nat a1 b1 H1 Sn) as M1. rewrite Sn.
+      assert (LO2 := xleb_ninf (V 1%nat a2)). assert (HI2 := xleb_pinf (V 1%nat b2)).
+      assert (LO3 := xleb_ninf (V 2%nat a3)). assert (HI3 := xleb_pinf (V 2%nat b3)).
+      destruct (straddles RNum a2 b2) eqn:S2; destruct (straddles RNum a3 b3) eqn:S3; cbn;
+        try (pose proof (side_order 1%nat a2 b2 H2 S2) as M2);
+        try (pose proof (side_order 2%nat a3 b3 H3 S3) as M3);
+        unfold tail_val; rewrite ?EA, ?EB in *; cbn [fin_val].
+      all: try pose proof (Cinc _ _ _ _ _ _ M1 LO2 LO3 ltac:(apply fs3_1; reflexivity)).
+      all: try pose proof (Cinc _ _ _ _ _ _ M1 LO2 HI3 ltac:(apply fs3_1; reflexivity)).
+      all: try pose proof (Cinc _ _ _ _ _ _ M1 LO2 M3 ltac:(apply fs3_1; reflexivity)).
+      all: try pose proof (Cinc _ _ _ _ _ _ M1 HI2 LO3 ltac:(apply fs3_1; reflexivity)).
+      all: try pose proof (Cinc _ _ _ _ _ _ M1 HI2 HI3 ltac:(apply fs3_1; reflexivity)).
+      all: try pose proof (Cinc _ _ _ _ _ _ M1 HI2 M3 ltac:(apply fs3_1; reflexivity)).
+      all: try pose proof (Cinc _ _ _ _ _ _ M1 M2 LO3 ltac:(apply fs3_1; reflexivity)).
+      all: try pose proof (Cinc _ _ _ _ _ _ M1 M2 HI3 ltac:(apply fs3_1; reflexivity)).
+      all: try pose proof (Cinc _ _ _ _ _ _ M1 M2 M3 ltac:(apply fs3_1; reflexivity)).
+      all: pose proof (proj1 (Cm A)) as mA; pose proof (proj1 (Cm B)) as mB.
+      all: clear Cinc Cm Cg; cbn in *; lra.
+    - (* coordinate 2 is the finite side *)
+      apply andb_prop in Hf. destruct Hf as [Hf Fb]. apply andb_prop in Hf. destruct Hf as [Sn Fa]. apply negb_true_iff in Sn.
+      apply is_fin_ex in Fa, Fb. destruct Fa as [A EA]. destruct Fb as [B EB].
+      pose proof (side_order 1%nat a2 b2 H2 Sn) as M2. rewrite Sn.
+      assert (LO1 := xleb_ninf (V 0%nat a1)). assert (HI1 := xleb_pinf (V 0%nat b1)).
+      assert (LO3 := xleb_ninf (V 2%nat a3)). assert (HI3 := xleb_pinf (V 2%nat b3)).
+      destruct (straddles RNum a1 b1) eqn:S1; destruct (straddles RNum a3 b3) eqn:S3; cbn;
+        try (pose proof (side_order 0%nat a1 b1 H1 S1) as M1);
+        try (pose proof (side_order 2%nat a3 b3 H3 S3) as M3);
+        unfold tail_val; rewrite ?EA, ?EB in *; cbn [fin_val].
+      all: try pose proof (Cinc _ _ _ _ _ _ LO1 M2 LO3 ltac:(apply fs3_2; reflexivity)).
+      all: try pose proof (Cinc _ _ _ _ _ _ LO1 M2 HI3 ltac:(apply fs3_2; reflexivity)).
+      all: try pose proof (Cinc _ _ _ _ _ _ LO1 M2 M3 ltac:(apply fs3_2; reflexivity)).
+      all: try pose proof (Cinc _ _ _ _ _ _ HI1 M2 LO3 ltac:(apply fs3_2; reflexivity)).
+      all: try pose proof (Cinc _ _ _ _ _ _ HI1 M2 HI3 ltac:(apply fs3_2; reflexivity)).
+      all: try pose proof (Cinc _ _ _ _ _ _ HI1 M2 M3 ltac:(apply fs3_2; reflexivity)).
+      all: try pose proof (Cinc _ _ _ _ _ _ M1 M2 LO3 ltac:(apply fs3_2; reflexivity)).
+      all: try pose proof (Cinc _ _ _ _ _ _ M1 M2 HI3 ltac:(apply fs3_2; reflexivity)).
+      all: try pose proof (Cinc _ _ _ _ _ _ M1 M2 M3 ltac:(apply fs3_2; reflexivity)).
+      all: pose proof (proj1 (proj2 (Cm A))) as mA; pose proof (proj1 (proj2 (Cm B))) as mB.
+      all: clear Cinc Cm Cg; cbn in *; lra.
+    - (* coordinate 3 is the finite side *)
+      apply andb_prop in Hf. destruct Hf as [Hf Fb]. apply andb_prop in Hf. destruct Hf as [Sn Fa]. apply negb_true_iff in Sn.
+      apply is_fin_ex in Fa, Fb. destruct Fa as [A EA]. destruct Fb as [B EB].
+      pose proof (side_order 2%nat a3 b3 H3 Sn) as M3. rewrite Sn.
+      assert (LO1 := xleb_ninf (V 0%nat a1)). assert (HI1 := xleb_pinf (V 0%nat b1)).
+      assert (LO2 := xleb_ninf (V 1%nat a2)). assert (HI2 := xleb_pinf (V 1%nat b2)).
+      destruct (straddles RNum a1 b1) eqn:S1; destruct (straddles RNum a2 b2) eqn:S2; cbn;
+        try (pose proof (side_order 0%nat a1 b1 H1 S1) as M1);
+        try (pose proof (side_order 1%nat a2 b2 H2 S2) as M2);
+        unfold tail_val; rewrite ?EA, ?EB in *; cbn [fin_val].
+      all: try pose proof (Cinc _ _ _ _ _ _ LO1 LO2 M3 ltac:(apply fs3_3; reflexivity)).
+      all: try pose proof (Cinc _ _ _ _ _ _ LO1 HI2 M3 ltac:(apply fs3_3; reflexivity)).
+      all: try pose proof (Cinc _ _ _ _ _ _ LO1 M2 M3 ltac:(apply fs3_3; reflexivity)).
+      all: try pose proof (Cinc _ _ _ _ _ _ HI1 LO2 M3 ltac:(apply fs3_3; reflexivity)).
+      all: try pose proof (Cinc _ _ _ _ _ _ HI1 HI2 M3 ltac:(apply fs3_3; reflexivity)).
+      all: try pose proof (Cinc _ _ _ _ _ _ HI1 M2 M3 ltac:(apply fs3_3; reflexivity)).
+      all: try pose proof (Cinc _ _ _ _ _ _ M1 LO2 M3 ltac:(apply fs3_3; reflexivity)).
+      all: try pose proof (Cinc _ _ _ _ _ _ M1 HI2 M3 ltac:(apply fs3_3; reflexivity)).
+      all: try pose proof (Cinc _ _ _ _ _ _ M1 M2 M3 ltac:(apply fs3_3; reflexivity)).
+      all: pose proof (proj2 (proj2 (Cm A))) as mA; pose proof (proj2 (proj2 (Cm B))) as mB.
+      all: clear Cinc Cm Cg; cbn in *; lra.
+  Qed.
+End Nonneg.
+
+(* when the hypothesis `fin_side` holds: an interval that stays away from 0 (tail integrals are finite away from 0),
+   or any non-straddling interval of a finite-activity margin *)
+Definition away (a b : ext R) : bool := @xlt0 RNum b || @xgt0 RNum a.
+Lemma gt0_mono (x y : ext R) : @xleb RNum x y = true -> @xgt0 RNum x = true -> @xgt0 RNum y = true.
+Proof. destruct x, y; simpl; try congruence. intros H1 H2. apply Rleb_true in H1. apply Rltb_true in H2. apply Rltb_true. lra. Qed.
+Lemma gt0_not_lt0 (x : ext R) : @xgt0 RNum x = true -> @xlt0 RNum x = false.
+Proof. destruct x; simpl; try congruence. intros H. apply Rltb_true in H. apply Rltb_false. lra. Qed.
+Lemma fin_side_away V k a b :
+  (forall x, (@xlt0 RNum x || @xgt0 RNum x)%bool = true -> is_fin RNum (V k x) = true) ->
+  @xleb RNum a b = true -> away a b = true -> fin_side V k a b = true.
 Proof.
-  intros [Tinf Tmono] [Cg [Cinc Cm]] a1 a2 a3 b1 b2 b3 H1 H2 H3 Hs.
-  unfold fast_3d, mass_3d, mass_2d, mass_1d. cbn [is_some is_none olen Nat.eqb Nat.ltb Nat.leb andb length].
-  fold (straddles RNum a1 b1). fold (straddles RNum a2 b2). fold (straddles RNum a3 b3).
-  set (A1 := U1 0%nat a1). set (B1 := U1 0%nat b1). set (A2 := U1 1%nat a2). set (B2 := U1 1%nat b2).
-  set (A3 := U1 2%nat a3). set (B3 := U1 2%nat b3).
-  assert (LO1 := (xleb_ninf (Fin A1))). assert (HI1 := xleb_pinf (Fin B1)).
-  assert (LO2 := (xleb_ninf (Fin A2))). assert (HI2 := xleb_pinf (Fin B2)).
-  assert (LO3 := (xleb_ninf (Fin A3))). assert (HI3 := xleb_pinf (Fin B3)).
-  destruct (straddles RNum a1 b1) eqn:S1; destruct (straddles RNum a2 b2) eqn:S2; destruct (straddles RNum a3 b3) eqn:S3;
-    try discriminate; cbn;
-    try (pose proof (xleb_fin _ _ (Tmono 0%nat a1 b1 H1 (nostraddle_side _ _ S1))) as M1; fold A1 B1 in M1);
-    try (pose proof (xleb_fin _ _ (Tmono 1%nat a2 b2 H2 (nostraddle_side _ _ S2))) as M2; fold A2 B2 in M2);
-    try (pose proof (xleb_fin _ _ (Tmono 2%nat a3 b3 H3 (nostraddle_side _ _ S3))) as M3; fold A3 B3 in M3).
-  all: try pose proof (Cinc _ _ _ _ _ _ LO1 LO2 LO3 eq_refl).
-  all: try pose proof (Cinc _ _ _ _ _ _ LO1 LO2 HI3 eq_refl).
-  all: try pose proof (Cinc _ _ _ _ _ _ LO1 LO2 M3 eq_refl).
-  all: try pose proof (Cinc _ _ _ _ _ _ LO1 HI2 LO3 eq_refl).
-  all: try pose proof (Cinc _ _ _ _ _ _ LO1 HI2 HI3 eq_refl).
-  all: try pose proof (Cinc _ _ _ _ _ _ LO1 HI2 M3 eq_refl).
-  all: try pose proof (Cinc _ _ _ _ _ _ LO1 M2 LO3 eq_refl).
-  all: try pose proof (Cinc _ _ _ _ _ _ LO1 M2 HI3 eq_refl).
-  all: try pose proof (Cinc _ _ _ _ _ _ LO1 M2 M3 eq_refl).
-  all: try pose proof (Cinc _ _ _ _ _ _ HI1 LO2 LO3 eq_refl).
-  all: try pose proof (Cinc _ _ _ _ _ _ HI1 LO2 HI3 eq_refl).
-  all: try pose proof (Cinc _ _ _ _ _ _ HI1 LO2 M3 eq_refl).
-  all: try pose proof (Cinc _ _ _ _ _ _ HI1 HI2 LO3 eq_refl).
-  all: try pose proof (Cinc _ _ _ _ _ _ HI1 HI2 HI3 eq_refl).
-  all: try pose proof (Cinc _ _ _ _ _ _ HI1 HI2 M3 eq_refl).
-  all: try pose proof (Cinc _ _ _ _ _ _ HI1 M2 LO3 eq_refl).
-  all: try pose proof (Cinc _ _ _ _ _ _ HI1 M2 HI3 eq_refl).
-  all: try pose proof (Cinc _ _ _ _ _ _ HI1 M2 M3 eq_refl).
-  all: try pose proof (Cinc _ _ _ _ _ _ M1 LO2 LO3 eq_refl).
-  all: try pose proof (Cinc _ _ _ _ _ _ M1 LO2 HI3 eq_refl).
-  all: try pose proof (Cinc _ _ _ _ _ _ M1 LO2 M3 eq_refl).
-  all: try pose proof (Cinc _ _ _ _ _ _ M1 HI2 LO3 eq_refl).
-  all: try pose proof (Cinc _ _ _ _ _ _ M1 HI2 HI3 eq_refl).
-  all: try pose proof (Cinc _ _ _ _ _ _ M1 HI2 M3 eq_refl).
-  all: try pose proof (Cinc _ _ _ _ _ _ M1 M2 LO3 eq_refl).
-  all: try pose proof (Cinc _ _ _ _ _ _ M1 M2 HI3 eq_refl).
-  all: try pose proof (Cinc _ _ _ _ _ _ M1 M2 M3 eq_refl).
-  all: pose proof (proj1 (Cm A1)) as mA1; pose proof (proj1 (Cm B1)) as mB1;
-       pose proof (proj1 (proj2 (Cm A2))) as mA2; pose proof (proj1 (proj2 (Cm B2))) as mB2;
-       pose proof (proj2 (proj2 (Cm A3))) as mA3; pose proof (proj2 (proj2 (Cm B3))) as mB3.
-  all: clear Cinc Cm Cg Tmono Tinf; cbn in *; subst A1 B1 A2 B2 A3 B3; lra.
+  intros F L A. unfold away in A. unfold fin_side, straddles. apply orb_true_iff in A. destruct A as [A|A].
+  - pose proof (lt0_mono _ _ L A) as A'. rewrite (lt0_ge0 _ A), andb_false_r. cbn.
+    rewrite (F a), (F b); auto; rewrite ?A, ?A'; reflexivity.
+  - pose proof (gt0_mono _ _ L A) as A'. rewrite (gt0_not_lt0 _ A). cbn.
+    rewrite (F a), (F b); auto; rewrite ?A, ?A'; apply orb_true_r.
 Qed.
+Lemma fin_side_finite (U1 : nat -> ext R -> R) k a b : straddles RNum a b = false -> fin_side (fun i x => Fin (U1 i x)) k a b = true.
+Proof. intros S. unfold fin_side. rewrite S. reflexivity. Qed.
